@@ -481,7 +481,7 @@ class Interp:
             ctor = cache[cls]
         if ctor is None or ctor.body is None:
             if node is not None and node.get("copy") and arg_nodes:
-                return copy.deepcopy(self.ev(arg_nodes[0], env))
+                return typed_copy(self.ev(arg_nodes[0], env), cls)
             o = self.new_obj(cls)
             return o
         o = self.new_obj(cls)
@@ -789,6 +789,10 @@ class Interp:
                 return p
             if isinstance(p, Obj):
                 return Box(p)
+            if isinstance(p, Iter) and isinstance(p.v, Vec):
+                return ElemRef(p.v, p.i)           # *p for a pointer into an array (bounds are checked on access)
+            if isinstance(p, Vec):
+                return ElemRef(p, 0)
             raise Unsupported("deref of %r" % (p,))
         if k in ("BinaryOperator", "CompoundAssignOperator") and n.get("op", "").endswith("="):
             self.ev(n, env)
@@ -954,7 +958,14 @@ class Interp:
         c = n["ch"][0]
         if op in ("++", "--"):
             r = self.lv(c, env)
-            old = self.num(r.get())
+            cur = r.get()
+            if isinstance(cur, (Vec, Iter)):
+                # pointer into an array: p++ / ++p / p-- / --p
+                base_, off_ = (cur, 0) if isinstance(cur, Vec) else (cur.v, cur.i)
+                new_ = Iter(base_, off_ + (1 if op == "++" else -1))
+                r.set(new_)
+                return (Iter(base_, off_) if n.get("postfix") else new_)
+            old = self.num(cur)
             new = r_add(old, 1) if op == "++" else r_sub(old, 1)
             if isinstance(old, int):
                 new = _wrap_int(old + (1 if op == "++" else -1), c.get("t", ""))
@@ -1084,7 +1095,7 @@ class Interp:
             if not args:
                 return Vec([], elem)
             if n.get("copy"):
-                return copy.deepcopy(self.ev(args[0], env))
+                return typed_copy(self.ev(args[0], env), n.get("t", "") or cname)
             a0 = self.ev(args[0], env)
             if isinstance(a0, int) and not isinstance(a0, bool):
                 fill = None
@@ -1128,7 +1139,7 @@ class Interp:
             return self.ev(args[0], env) if args else None
         if cname.startswith("std::pair"):
             if n.get("copy") and args:
-                return copy.deepcopy(self.ev(args[0], env))
+                return typed_copy(self.ev(args[0], env), n.get("t", "") or cname)
             o = Obj("std::pair")
             if len(args) >= 2:
                 o.f["first"] = self.ev(args[0], env)
@@ -1145,7 +1156,7 @@ class Interp:
                 return copy.deepcopy(self.ev(args[0], env))
             return Opaque(cname)
         if n.get("copy") and args and (self.prog.by_key.get(n.get("callee")) is None or self.prog.by_key[n["callee"]].body is None or n.get("implicit")):
-            return copy.deepcopy(self.ev(args[0], env))
+            return typed_copy(self.ev(args[0], env), cname)      # member-wise copy: pointer members alias their pointee
         return self.construct(cname, args, env, ctor_key=n.get("callee"), node=n)
 
     e_CXXTemporaryObjectExpr = e_CXXConstructExpr
@@ -1220,6 +1231,17 @@ class Interp:
     def e_CXXNewExpr(self, n, env):
         ch = n.get("ch", [])
         at = n.get("at", "")
+        if n.get("arr"):
+            # new T[k]: an array of k uninitialised (or default-constructed) elements; the pointer is the Vec itself
+            size = None
+            for c in ch:
+                if c.get("k") not in ("CXXConstructExpr", "InitListExpr"):
+                    size = self.ev(c, env)
+                    break
+            if isinstance(size, int) and not isinstance(size, bool) and size >= 0:
+                el = (lambda: self.construct(at, [], env)) if at in self.prog.records else (lambda: UNINIT)
+                return Vec([el() for _ in range(size)], at)
+            raise Unsupported("array new with a non-constant size")
         for c in ch:
             if c.get("k") in ("CXXConstructExpr",):
                 return self.ev(c, env)
